@@ -19,6 +19,63 @@ from .bounded import Bounded
 from . import trees as T
 from .C02 import actual_nodes
 
+# ---- deductive: XPathNode.get_child_position counts exactly the preceding-or-self siblings matched by the node test of the path step ----
+import z3                                                        # noqa: E402
+from pyvc.values import *                                        # noqa: E402,F401
+from pyvc.contract import Contract, Case                         # noqa: E402
+from pyvc.interp import LoopSpec                                 # noqa: E402
+from pyvc.specprims import *                                     # noqa: E402,F401
+from pyvc import models as _models                               # noqa: E402
+from elementpath.xpath_nodes import XPathNode as _XPathNode, ElementNode as _ElementNode, ProcessingInstructionNode as _PINode   # noqa: E402
+from .common import std_hooks                                     # noqa: E402
+
+KIND_ELEMENT, KIND_PI = 0, 1          # other kinds (text, comment, ...) are any other integers
+
+
+def same_test(x, child):
+    """the node test the `path` property writes for `child`: Q{ns}local[n] / processing-instruction(target)[n] count same-named nodes of the kind,
+    text()[n] / comment()[n] count nodes of the kind"""
+    return node_kind(x) == node_kind(child) and (node_name(x) == node_name(child) if (node_kind(child) == 0 or node_kind(child) == 1) else True)
+
+
+def child_position_case(S, ex):
+    sibs = S.seq('S', K_ITEM)
+    counts = S.seq('C', K_INT)
+    p = S.int('p')
+    child = sibs.get(p.t)
+    node = VObj(_XPathNode, {'children': sibs}, name='self')
+    kind = z3.Function('node_kind', ITEM_SORT, z3.IntSort())
+    name = z3.Function('node_name', ITEM_SORT, z3.IntSort())
+
+    def isinstance_hook(ex, *rest):
+        if len(rest) == 2:
+            return None
+        node_, a, kw = rest
+        v, c = a
+        if isinstance(v, VItem):
+            if isinstance(c, VNative) and c.obj is _ElementNode:
+                return VBool(kind(v.t) == KIND_ELEMENT)
+            if isinstance(c, VNative) and c.obj is _PINode:
+                return VBool(kind(v.t) == KIND_PI)
+            if isinstance(c, VBound) and c.name == '__class__' and isinstance(c.recv, VItem):
+                return VBool(kind(v.t) == kind(c.recv.t))           # T-KINDCLASS: one node class per remaining kind
+        return VBool(_models.isinstance_(ex, v, c))
+    attr_hooks = {'c.name': lambda ex, env: VInt(name(env.lookup('c').t)), 'child.name': lambda ex, env: VInt(name(env.lookup('child').t))}
+    hooks = {'isinstance': isinstance_hook}
+    return Case([node, child], hooks=hooks, attr_hooks=attr_hooks, names={'S': sibs, 'C': counts, 'p': p, 'child': child})
+
+
+CONTRACTS = [Contract(
+    'XPathNode.get_child_position', 'C14', lambda: _XPathNode.get_child_position, child_position_case,
+    pre=["0 <= p and p < len(S)", "forall_range(0, len(S), lambda i: implies(S[i] == child, i == p))",
+         "len(C) == len(S) + 1", "C[0] == 0", "forall_range(0, len(S), lambda j: C[j + 1] == C[j] + (1 if same_test(S[j], child) else 0))"],
+    post=[('counts_the_siblings_matched_by_the_step_up_to_the_child', "returned and result == C[p + 1]"),
+          ('position_is_at_least_one', "returned and result >= 1")],
+    loops={0: LoopSpec(["_i0 <= p", "pos == C[_i0]", "pos >= 0", "forall_range(0, _i0, lambda j: S[j] != child)"])},
+    specs=[same_test], native=None, expect_min_obligations=4,
+    notes=['siblings are opaque items with uninterpreted kind and name codes; the child occurs exactly once among them (object identity); T-KINDCLASS: text and '
+           'comment nodes have one class each, so `isinstance(c, child.__class__)` is equality of kinds'])]
+
 BOUNDED_ONLY = ('the path properties walk parent/children object graphs (get_child_position) which the deductive engine does not model; '
                 'their postcondition is checked at run time on a stated finite scope')
 NOT_DECIDED = ['for ALL trees: only the stated scope is explored (bounded stand-in)']
